@@ -36,6 +36,19 @@ pub fn rd_dt(dt: &DateTime) -> i128 {
     (z.timestamp() as i128 + tl::EPOCH_1970_S as i128) * tl::NS + z.nano() as i128
 }
 
+/// A value carrying `offset` whose offset was attached two days further inside the range and
+/// which was then moved onto the instant by arithmetic. Unlike `mk_dt_off` this also builds
+/// values on the outermost days whose *local* reading is not representable (set_offset refuses
+/// those directly, arithmetic on an offset-carrying value reaches them).
+pub fn mk_dt_off_late(instant: i128, offset: i32) -> DateTime {
+    let shift = 48 * 3_600 * tl::NS;
+    if instant >= 0 {
+        mk_dt_off(instant - shift, offset).add_hours(48)
+    } else {
+        mk_dt_off(instant + shift, offset).sub_hours(48)
+    }
+}
+
 /// Builds the same instant through one of several public routes (constructor + add, operator
 /// with a Duration or a Time landing on the instant, set_time, ...). Every route must give an
 /// indistinguishable value; a route that leaves a non-normalised value behind shows up in the
@@ -54,10 +67,48 @@ pub fn mk_dt_route(instant: i128, route: u8) -> DateTime {
         }
         3 if fits(instant - 1_500_000_000) => mk_dt(instant - 1_500_000_000) + std::time::Duration::new(1, 500_000_000),
         4 if fits(instant + 86_400 * tl::NS + 7) => mk_dt(instant + 86_400 * tl::NS + 7) - std::time::Duration::new(86_400, 7),
-        5 if fits(instant + tod) && tod > 0 => mk_dt(instant + tod) - Time::from_nanos(tod as u64).unwrap(),
+        5 => {
+            // left operand whose time of day equals the subtracted Time when the target is a midnight
+            let x = if tod > 0 { tod } else { 18_000_000_000_001 };
+            if fits(instant + x) { mk_dt(instant + x) - Time::from_nanos(x as u64).unwrap() } else { mk_dt(instant) }
+        }
         6 => mk_dt(day * tl::DAY_NS).set_time(Time::from_nanos(tod as u64).unwrap()),
         7 if fits(instant - 3_600 * tl::NS) => mk_dt(instant - 3_600 * tl::NS).add_hours(1),
         _ => mk_dt(instant),
+    }
+}
+
+/// `mk_dt_off` through a route
+pub fn mk_dt_off_route(instant: i128, offset: i32, route: u8) -> DateTime {
+    if route % 16 < 8 {
+        mk_dt_route(instant, route).set_offset(Offset::Fixed(offset))
+    } else {
+        mk_dt_off(instant, offset)
+    }
+}
+
+/// The value `mk_dt_off(instant, offset)` denotes, built through a route chosen from the bits of
+/// the instant (half of all instants: plain construction). Only routes that deliver exactly the
+/// wanted instant are used - a route whose operator is broken in the *instant* is the business
+/// of C04, not of the property that merely needs a receiver - so what the routes add is the
+/// set of *representations* the public API can produce for one instant.
+pub fn mk_dt_off_any(instant: i128, offset: i32) -> DateTime {
+    let h = (instant as u64) ^ ((instant >> 37) as u64) ^ (offset as u32 as u64).wrapping_mul(0x9E37_79B9);
+    let route = (h % 16) as u8;
+    if route >= 8 {
+        return mk_dt_off(instant, offset);
+    }
+    let built = std::panic::catch_unwind(|| {
+        let v = mk_dt_route(instant, route);
+        if rd_dt(&v) == instant {
+            Some(v)
+        } else {
+            None
+        }
+    });
+    match built {
+        Ok(Some(v)) => v.set_offset(Offset::Fixed(offset)),
+        _ => mk_dt_off(instant, offset),
     }
 }
 
@@ -96,6 +147,28 @@ pub fn canonical_dt(dt: &DateTime) -> Result<(), String> {
     let t = Time::from(z);
     if t.as_nanos() as i128 != f.day_ns as i128 {
         return Err(format!("Time::from(value at offset 0).as_nanos() = {}, instant has {}", t.as_nanos(), f.day_ns));
+    }
+    // no observer may tell the value from a freshly constructed one denoting the same instant:
+    // calendar differences against day-aligned references and a date setter read the stored
+    // fields in their own way
+    let p = mk_dt(i);
+    for r in [i - f.day_ns as i128 - 31 * tl::DAY_NS, i - f.day_ns as i128 + tl::DAY_NS, i - f.day_ns as i128] {
+        if !tl::representable(r) {
+            continue;
+        }
+        let rr = mk_dt(r);
+        let got = (z.days_since(&rr), z.months_since(&rr), z.years_since(&rr), rr.days_since(&z), rr.months_since(&z));
+        let want = (p.days_since(&rr), p.months_since(&rr), p.years_since(&rr), rr.days_since(&p), rr.months_since(&p));
+        if got != want {
+            return Err(format!("(days, months, years)_since / reversed against {} = {:?}, a freshly built equal value gives {:?}", fmt_instant(r), got, want));
+        }
+    }
+    if f.day > cal::MIN_DAY + 40 && f.day < cal::MAX_DAY - 40 {
+        let got = (z.set_day(1).ok().map(|v| rd_dt(&v)), z.set_month(f.month).ok().map(|v| rd_dt(&v)));
+        let want = (p.set_day(1).ok().map(|v| rd_dt(&v)), p.set_month(f.month).ok().map(|v| rd_dt(&v)));
+        if got != want {
+            return Err(format!("set_day(1) / set_month(current) = {:?}, on a freshly built equal value {:?}", got.0.map(fmt_instant), want.0.map(fmt_instant)));
+        }
     }
     Ok(())
 }
